@@ -230,7 +230,7 @@ template <class G> struct Monitor {
     std::string cls;
     ObsCounters oc;
     uint64_t callsByKind[KIND_COUNT] = {0};
-    uint64_t calls = 0, multPresent = 0, multAbsent = 0, totals = 0, noopChecks = 0;
+    uint64_t calls = 0, multPresent = 0, multAbsent = 0, totals = 0, noopChecks = 0, bigMultiplicities = 0;
     uint64_t after[G_COUNT] = {0};
     uint64_t setOn[4] = {0}; // setEdgeMultiplicity on edges of multiplicity 0,1,2,>2
     Monitor(Reporter &R, const HistConfig &cfg, std::string cls) : R(R), cfg(cfg), cls(std::move(cls)) {}
@@ -241,6 +241,8 @@ template <class G> struct Monitor {
         for (int k = 0; k < KIND_COUNT; ++k)
             if (callsByKind[k]) R.count(std::string("calls_") + kindName(k), callsByKind[k]);
         R.count("mult_reads_present_edge", multPresent);
+        R.count("calls_with_multiplicity_of_2_to_the_16_or_more", bigMultiplicities);
+        bigMultiplicities = 0;
         R.count("mult_reads_absent_pair", multAbsent);
         R.count("total_edge_number_comparisons", totals);
         R.count("noop_exactness_checks", noopChecks);
@@ -334,12 +336,27 @@ template <class G> struct Monitor {
             op.i = e.first; op.j = e.second;
         };
         if (take(wAdd)) { op.kind = ADD; pick(-1); }
-        else if (take(wAddM)) { op.kind = ADDM; pick(-1); op.k = r.u(5); }
+        else if (take(wAddM)) {
+            op.kind = ADDM; pick(-1); op.k = r.u(5);
+            // now and then a large multiplicity ("all multiplicity arguments"); the per-pair sum stays below 2^32
+            if (r.chance(1, 25)) {
+                static const unsigned big[] = {255, 256, 65535, 65536, 1u << 24, 1u << 30, (1u << 31) - 1, 1u << 31};
+                unsigned k = big[r.u(8)];
+                if ((uint64_t)s.m.mult(op.i, op.j) + k <= 0xffffffffULL) { op.k = k; ++bigMultiplicities; }
+            }
+        }
         else if (take(wRec)) { op.kind = ADDREC; pick(-1); }
         else if (take(wRecM)) { op.kind = ADDRECM; pick(-1); op.k = r.u(5); }
         else if (take(wRem)) { op.kind = REMOVE; pick(1); }
         else if (take(wRemM)) { op.kind = REMOVEM; pick(1); op.k = r.u(6); }
-        else if (take(wSet)) { op.kind = SETM; pick(r.chance(2, 3) ? 1 : -1); op.k = 1 + r.u(6); }
+        else if (take(wSet)) {
+            op.kind = SETM; pick(r.chance(2, 3) ? 1 : -1); op.k = 1 + r.u(6);
+            if (r.chance(1, 25)) {
+                static const unsigned big[] = {65536, 1u << 30, 1u << 31, 0xfffffffeu, 0xffffffffu, (1u << 31) + 7};
+                op.k = big[r.u(6)];
+                ++bigMultiplicities;
+            }
+        }
         else if (take(wSet0)) { op.kind = SETM0; pick(1); op.k = 0; }
         else if (take(wLoops)) op.kind = LOOPS;
         else if (take(wVertex)) { op.kind = VERTEX; pick(1); if (r.chance(1, 2)) op.i = op.j; }
@@ -349,6 +366,16 @@ template <class G> struct Monitor {
             op.k = r.u(3);
             if (n == 0 && op.k == 0 && r.chance(3, 4)) op.k = 1 + r.u(3);
             if (n + op.k > maxN) op.k = maxN - n;
+        }
+        // EdgeMultiplicity is a 32-bit unsigned: an addition that would leave its range is outside any claim
+        if (op.kind == ADD || op.kind == ADDREC || op.kind == ADDM || op.kind == ADDRECM) {
+            uint64_t k = (op.kind == ADD || op.kind == ADDREC) ? 1 : op.k;
+            bool both = op.kind == ADDREC || op.kind == ADDRECM;
+            uint64_t extra = (both && op.i == op.j) ? k : 0; // a reciprocal add on a self-loop adds twice
+            if ((uint64_t)s.m.mult(op.i, op.j) + k + extra > 0xffffffffULL || (both && (uint64_t)s.m.mult(op.j, op.i) + k > 0xffffffffULL)) {
+                op.kind = SETM;
+                op.k = 3;
+            }
         }
         return op;
     }
